@@ -6,6 +6,87 @@ static J ints(const std::vector<int>& v) {
     return J::arr_of(v);
 }
 
+J event_to_json(const Event& e) {
+    J o = J::obj();
+    o.set("op", op_name(e.op));
+    switch (e.op) {
+    case OP_LOAD:
+    case OP_UNLOAD:
+        o.set("recs", ints(e.recs));
+        break;
+    case OP_UPDATE:
+        o.set("pol", e.pol);
+        if (e.hash_seed)
+            o.set("hash_seed", J((unsigned long long)e.hash_seed));
+        if (e.hash_budget)
+            o.set("hash_budget", J((unsigned long long)e.hash_budget));
+        if (e.alloc_fail_at >= 0)
+            o.set("alloc_fail_at", J(e.alloc_fail_at));
+        if (e.trace)
+            o.set("trace", e.trace);
+        break;
+    case OP_CHECK:
+        o.set("pol", e.pol);
+        o.set("sample_seed", J((unsigned long long)e.sample_seed));
+        o.set("max_tuples", e.max_tuples);
+        o.set("routes", e.routes);
+        o.set("call_next", e.call_next);
+        break;
+    case OP_RELOCATE: {
+        o.set("cls", e.cls);
+        J a = J::arr();
+        for (auto x : e.ids)
+            a.push(J((unsigned long long)x));
+        o.set("ids", a);
+        break;
+    }
+    case OP_HANDLER:
+        o.set("pol", e.pol);
+        o.set("mode", e.mode);
+        break;
+    case OP_CALL:
+        o.set("pol", e.pol);
+        o.set("meth", e.meth);
+        o.set("args", ints(e.args));
+        o.set("aliases", ints(e.aliases));
+        o.set("rts", ints(e.rts));
+        o.set("mode", e.mode);
+        if (e.fork)
+            o.set("fork", e.fork);
+        if (e.resolve)
+            o.set("resolve", e.resolve);
+        if (e.final_as >= 0)
+            o.set("final_as", e.final_as);
+        break;
+    case OP_VP_MAKE:
+        o.set("pol", e.pol);
+        o.set("vslot", e.vslot);
+        o.set("cls", e.cls);
+        o.set("alias", e.alias);
+        o.set("route", e.route);
+        o.set("shared", e.shared);
+        break;
+    case OP_VP_COPY:
+        o.set("pol", e.pol);
+        o.set("vslot", e.vslot);
+        o.set("vfrom", e.vfrom);
+        o.set("route", e.route);
+        break;
+    case OP_VP_USE:
+        o.set("pol", e.pol);
+        o.set("vslot", e.vslot);
+        o.set("meth", e.meth);
+        o.set("args", ints(e.args));
+        o.set("aliases", ints(e.aliases));
+        break;
+    case OP_VP_DROP:
+        o.set("pol", e.pol);
+        o.set("vslot", e.vslot);
+        break;
+    }
+    return o;
+}
+
 J plan_to_json(const Plan& p) {
     J j = J::obj();
     j.set("seed", J((unsigned long long)p.seed));
@@ -14,6 +95,8 @@ J plan_to_json(const Plan& p) {
     j.set("policies", J::arr_of(p.pols));
     j.set("allow_missing", p.allow_missing);
     j.set("heap_jitter", p.heap_jitter);
+    if (p.setup_events)
+        j.set("setup_events", p.setup_events);
     if (!p.diff.empty())
         j.set("diff", p.diff);
     if (!p.orders.empty()) {
@@ -68,83 +151,7 @@ J plan_to_json(const Plan& p) {
     j.set("recs", recs);
     J evs = J::arr();
     for (auto& e : p.events) {
-        J o = J::obj();
-        o.set("op", op_name(e.op));
-        switch (e.op) {
-        case OP_LOAD:
-        case OP_UNLOAD:
-            o.set("recs", ints(e.recs));
-            break;
-        case OP_UPDATE:
-            o.set("pol", e.pol);
-            if (e.hash_seed)
-                o.set("hash_seed", J((unsigned long long)e.hash_seed));
-            if (e.hash_budget)
-                o.set("hash_budget", J((unsigned long long)e.hash_budget));
-            if (e.alloc_fail_at >= 0)
-                o.set("alloc_fail_at", J(e.alloc_fail_at));
-            if (e.trace)
-                o.set("trace", e.trace);
-            break;
-        case OP_CHECK:
-            o.set("pol", e.pol);
-            o.set("sample_seed", J((unsigned long long)e.sample_seed));
-            o.set("max_tuples", e.max_tuples);
-            o.set("routes", e.routes);
-            o.set("call_next", e.call_next);
-            break;
-        case OP_RELOCATE: {
-            o.set("cls", e.cls);
-            J a = J::arr();
-            for (auto x : e.ids)
-                a.push(J((unsigned long long)x));
-            o.set("ids", a);
-            break;
-        }
-        case OP_HANDLER:
-            o.set("pol", e.pol);
-            o.set("mode", e.mode);
-            break;
-        case OP_CALL:
-            o.set("pol", e.pol);
-            o.set("meth", e.meth);
-            o.set("args", ints(e.args));
-            o.set("aliases", ints(e.aliases));
-            o.set("rts", ints(e.rts));
-            o.set("mode", e.mode);
-            if (e.fork)
-                o.set("fork", e.fork);
-            if (e.resolve)
-                o.set("resolve", e.resolve);
-            if (e.final_as >= 0)
-                o.set("final_as", e.final_as);
-            break;
-        case OP_VP_MAKE:
-            o.set("pol", e.pol);
-            o.set("vslot", e.vslot);
-            o.set("cls", e.cls);
-            o.set("alias", e.alias);
-            o.set("route", e.route);
-            o.set("shared", e.shared);
-            break;
-        case OP_VP_COPY:
-            o.set("pol", e.pol);
-            o.set("vslot", e.vslot);
-            o.set("vfrom", e.vfrom);
-            o.set("route", e.route);
-            break;
-        case OP_VP_USE:
-            o.set("pol", e.pol);
-            o.set("vslot", e.vslot);
-            o.set("meth", e.meth);
-            o.set("args", ints(e.args));
-            o.set("aliases", ints(e.aliases));
-            break;
-        case OP_VP_DROP:
-            o.set("pol", e.pol);
-            o.set("vslot", e.vslot);
-            break;
-        }
+        J o = event_to_json(e);
         evs.push(o);
     }
     j.set("events", evs);
@@ -158,6 +165,42 @@ static int op_from(const std::string& s) {
     throw std::runtime_error("unknown op " + s);
 }
 
+Event event_from_json(const J& o) {
+    Event e;
+    e.op = op_from(o.gets("op", ""));
+    e.pol = (int)o.geti("pol", -1);
+    if (o.has("recs"))
+        e.recs = o.at("recs").ints();
+    e.hash_seed = o.getu("hash_seed", 0);
+    e.hash_budget = o.getu("hash_budget", 0);
+    e.alloc_fail_at = o.geti("alloc_fail_at", -1);
+    e.trace = (int)o.geti("trace", 0);
+    e.sample_seed = o.getu("sample_seed", 0);
+    e.max_tuples = (int)o.geti("max_tuples", 400);
+    e.routes = (int)o.geti("routes", 1);
+    e.call_next = (int)o.geti("call_next", 1);
+    e.cls = (int)o.geti("cls", -1);
+    if (o.has("ids"))
+        e.ids = o.at("ids").u64s();
+    e.mode = (int)o.geti("mode", 0);
+    e.meth = (int)o.geti("meth", -1);
+    if (o.has("args"))
+        e.args = o.at("args").ints();
+    if (o.has("aliases"))
+        e.aliases = o.at("aliases").ints();
+    if (o.has("rts"))
+        e.rts = o.at("rts").ints();
+    e.fork = (int)o.geti("fork", 0);
+    e.resolve = (int)o.geti("resolve", 0);
+    e.final_as = (int)o.geti("final_as", -1);
+    e.vslot = (int)o.geti("vslot", -1);
+    e.vfrom = (int)o.geti("vfrom", -1);
+    e.alias = (int)o.geti("alias", 0);
+    e.route = (int)o.geti("route", 0);
+    e.shared = (int)o.geti("shared", 0);
+    return e;
+}
+
 Plan plan_from_json(const J& j) {
     Plan p;
     p.seed = j.getu("seed", 0);
@@ -168,6 +211,7 @@ Plan plan_from_json(const J& j) {
     p.allow_missing = (int)j.geti("allow_missing", 0);
     p.heap_jitter = (int)j.geti("heap_jitter", 0);
     p.diff = j.gets("diff", "");
+    p.setup_events = (int)j.geti("setup_events", 0);
     if (j.has("orders"))
         for (auto& v : j.at("orders").a)
             p.orders.push_back(v.ints());
@@ -201,38 +245,7 @@ Plan plan_from_json(const J& j) {
         p.recs.push_back(r);
     }
     for (auto& o : j.at("events").a) {
-        Event e;
-        e.op = op_from(o.gets("op", ""));
-        e.pol = (int)o.geti("pol", -1);
-        if (o.has("recs"))
-            e.recs = o.at("recs").ints();
-        e.hash_seed = o.getu("hash_seed", 0);
-        e.hash_budget = o.getu("hash_budget", 0);
-        e.alloc_fail_at = o.geti("alloc_fail_at", -1);
-        e.trace = (int)o.geti("trace", 0);
-        e.sample_seed = o.getu("sample_seed", 0);
-        e.max_tuples = (int)o.geti("max_tuples", 400);
-        e.routes = (int)o.geti("routes", 1);
-        e.call_next = (int)o.geti("call_next", 1);
-        e.cls = (int)o.geti("cls", -1);
-        if (o.has("ids"))
-            e.ids = o.at("ids").u64s();
-        e.mode = (int)o.geti("mode", 0);
-        e.meth = (int)o.geti("meth", -1);
-        if (o.has("args"))
-            e.args = o.at("args").ints();
-        if (o.has("aliases"))
-            e.aliases = o.at("aliases").ints();
-        if (o.has("rts"))
-            e.rts = o.at("rts").ints();
-        e.fork = (int)o.geti("fork", 0);
-        e.resolve = (int)o.geti("resolve", 0);
-        e.final_as = (int)o.geti("final_as", -1);
-        e.vslot = (int)o.geti("vslot", -1);
-        e.vfrom = (int)o.geti("vfrom", -1);
-        e.alias = (int)o.geti("alias", 0);
-        e.route = (int)o.geti("route", 0);
-        e.shared = (int)o.geti("shared", 0);
+        Event e = event_from_json(o);
         p.events.push_back(e);
     }
     return p;
